@@ -559,13 +559,18 @@ def native_part(run):
             ("arange(-3,0)", lambda: synapgrad.arange(-3, 0), np.arange(-3.0, 0)), ("arange(3,0,-1)", lambda: synapgrad.arange(3, 0, -1), np.arange(3.0, 0, -1)),
             ("arange(0)", lambda: synapgrad.arange(0), np.arange(0.0)), ("arange(2,2)", lambda: synapgrad.arange(2, 2), np.arange(2.0, 2)), ("arange(0,3)", lambda: synapgrad.arange(0, 3), np.arange(0.0, 3)),
             ("arange(-2,0.0,0.5)", lambda: synapgrad.arange(-2, 0.0, 0.5), np.arange(-2, 0.0, 0.5)), ("arange(1,-1,-0.5)", lambda: synapgrad.arange(1, -1, -0.5), np.arange(1, -1, -0.5)),
+            # spans the step does not divide (the last element is start + (n-1)*step, the spacing is the step, never stretched to fit)
+            ("arange(0,10,3)", lambda: synapgrad.arange(0, 10, 3), np.arange(0.0, 10, 3)), ("arange(2.5)", lambda: synapgrad.arange(2.5), np.arange(2.5)),
+            ("arange(5,0,-2)", lambda: synapgrad.arange(5, 0, -2), np.arange(5.0, 0, -2)), ("arange(0,1,0.3)", lambda: synapgrad.arange(0, 1, 0.3), np.arange(0, 1, 0.3)),
+            ("arange(1,2,0.75)", lambda: synapgrad.arange(1, 2, 0.75), np.arange(1, 2, 0.75)), ("arange(-1,1,0.7)", lambda: synapgrad.arange(-1, 1, 0.7), np.arange(-1, 1, 0.7)),
             ("eye(3)", lambda: synapgrad.eye(3), np.eye(3)), ("tensor(list)", lambda: synapgrad.tensor([[1, 2], [3, 4]]), np.array([[1.0, 2], [3, 4]])),
             ("tensor(scalar)", lambda: synapgrad.tensor(2.5), np.array(2.5))]
     for name, mk, exp in ctor:
         run.rt(("ctor", name))
         try:
             t = mk()
-            if t.shape != exp.shape or not np.array_equal(t.data, exp.astype(t.data.dtype)) or t.data.dtype != np.float32:
+            # values to single precision (a float32 arange computed in float32 and one computed in float64 and rounded differ in the last bit; both are the documented values)
+            if t.shape != exp.shape or not np.allclose(t.data, exp, rtol=2e-6, atol=2e-6) or t.data.dtype != np.float32:
                 run.violation("synapgrad.%s.value" % name.split("(")[0], "%s gave shape %s dtype %s" % (name, t.shape, t.data.dtype), key={"constructor": name}, replay={})
         except Exception as e:
             run.violation("synapgrad.%s.completes" % name.split("(")[0], "%s raised %s: %s" % (name, type(e).__name__, e), key={"constructor": name}, replay={})
